@@ -1,7 +1,1042 @@
-//! Lane `codecs` (stub).
-use crate::out::Out;
+//! Lane `codecs` (C19): every request control / extended request of ldap3 through its public
+//! `From`/`Into` conversion, every response parser on values encoded by the lane's own RFC encoder
+//! (random non-minimal length forms), control lists through the real message envelope.
+//!   M lines: the Lean model (Model/Codecs.lean, Model/Controls.lean) recomputes the conversion
+//!   O lines: the RFC decoder (Spec/Codecs.lean) applied to the REAL emitted value = generated value
+//!   R lines: OID / criticality against the RFC constants written here, struct equality on parses
+use crate::fmtx::*;
+use crate::lanes::ber::spec_enc;
+use crate::out::{guarded, Out};
 use crate::rng::Rng;
+use bytes::BytesMut;
+use ldap3::controls::{parse_syncinfo, Assertion, Control, ControlType, EntryState, MakeCritical, ManageDsaIt, MatchedValues, PagedResults, PostRead, PreRead, ProxyAuth, RawControl, ReadEntryResp, RefreshMode, RelaxRules, SyncDone, SyncInfo, SyncRequest, SyncState, TxnSpec};
+use ldap3::exop::{EndTxn, EndTxnResp, Exop, PasswordModify, PasswordModifyResp, StartTxn, StartTxnResp, WhoAmI, WhoAmIResp};
+use ldap3::{ResultEntry, SearchEntry};
+use lber::parse::parse_tag;
+use lber::structure::{StructureTag, PL};
+use lber::structures::Tag;
 
-pub fn run(_thorough: bool, _rng: Rng, out: Out) {
-    out.finish("stub lane: nothing generated yet");
+// ---- RFC constants (copied from the RFC texts, independent of the crate's constants)
+const RFC_PAGED: &str = "1.2.840.113556.1.4.319";
+const RFC_SYNC_REQUEST: &str = "1.3.6.1.4.1.4203.1.9.1.1";
+const RFC_SYNC_STATE: &str = "1.3.6.1.4.1.4203.1.9.1.2";
+const RFC_SYNC_DONE: &str = "1.3.6.1.4.1.4203.1.9.1.3";
+const RFC_SYNC_INFO: &str = "1.3.6.1.4.1.4203.1.9.1.4";
+const RFC_PRE_READ: &str = "1.3.6.1.1.13.1";
+const RFC_POST_READ: &str = "1.3.6.1.1.13.2";
+const RFC_ASSERTION: &str = "1.3.6.1.1.12";
+const RFC_MATCHED_VALUES: &str = "1.2.826.0.1.3344810.2.3";
+const RFC_PROXY_AUTH: &str = "2.16.840.1.113730.3.4.18";
+const RFC_TXN_SPEC: &str = "1.3.6.1.1.21.2";
+const RFC_TXN_START: &str = "1.3.6.1.1.21.1";
+const RFC_TXN_END: &str = "1.3.6.1.1.21.3";
+const RFC_MANAGE_DSA_IT: &str = "2.16.840.1.113730.3.4.2";
+const RFC_RELAX: &str = "1.3.6.1.4.1.4203.666.5.12";
+const RFC_WHOAMI: &str = "1.3.6.1.4.1.4203.1.11.3";
+const RFC_PASSMOD: &str = "1.3.6.1.4.1.4203.1.11.1";
+
+const COOKIE_LENS: &[usize] = &[0, 1, 127, 128, 300];
+const SIZES: &[i32] = &[0, 1, 127, 128, 255, 256, 32767, 32768, 65535, 65536, 8388607, 8388608, i32::MAX - 1, i32::MAX];
+
+fn opt_hex(v: &Option<Vec<u8>>) -> String {
+    match v {
+        None => String::from("none"),
+        Some(b) => hex(b),
+    }
+}
+
+fn bit(b: bool) -> &'static str {
+    if b { "1" } else { "0" }
+}
+
+fn show_raw(rc: &RawControl) -> String {
+    format!("oid={} crit={} val={}", hex(rc.ctype.as_bytes()), bit(rc.crit), opt_hex(&rc.val))
+}
+
+fn show_exop(e: &Exop) -> String {
+    format!("name={} val={}", opt_hex(&e.name.as_ref().map(|s| s.as_bytes().to_vec())), opt_hex(&e.val))
+}
+
+fn known_word(k: &Option<ControlType>) -> &'static str {
+    match k {
+        None => "-",
+        Some(ControlType::PagedResults) => "paged",
+        Some(ControlType::PostReadResp) => "postread",
+        Some(ControlType::PreReadResp) => "preread",
+        Some(ControlType::SyncDone) => "syncdone",
+        Some(ControlType::SyncState) => "syncstate",
+        Some(ControlType::ManageDsaIt) => "managedsait",
+        Some(ControlType::MatchedValues) => "matchedvalues",
+        Some(_) => "other",
+    }
+}
+
+fn show_controls(cs: &[Control]) -> String {
+    let v: Vec<String> = cs
+        .iter()
+        .map(|c| format!("{} {} {} {}", known_word(&c.0), hex(c.1.ctype.as_bytes()), bit(c.1.crit), opt_hex(&c.1.val)))
+        .collect();
+    format!("[{}]", v.join(";"))
+}
+
+/// the lane's own expectation of the `CONTROLS` table, from the RFC OIDs of the response controls
+fn rfc_known(oid: &str) -> &'static str {
+    match oid {
+        RFC_PAGED => "paged",
+        RFC_POST_READ => "postread",
+        RFC_PRE_READ => "preread",
+        RFC_SYNC_DONE => "syncdone",
+        RFC_SYNC_STATE => "syncstate",
+        RFC_MANAGE_DSA_IT => "managedsait",
+        RFC_MATCHED_VALUES => "matchedvalues",
+        _ => "-",
+    }
+}
+
+const PALETTE: &[&str] = &["a", "b", "z", "A", "0", "9", "=", ",", " ", "-", ".", ":", "é", "ß", "€", "𝄞", "\u{0}", "*", "(", ")", "\\"];
+
+fn gen_str(rng: &mut Rng) -> String {
+    let n = match rng.below(10) {
+        0 => 0,
+        1..=5 => rng.range(1, 8) as usize,
+        6..=7 => rng.range(9, 40) as usize,
+        8 => *rng.pick(&[126usize, 127, 128, 129]),
+        _ => *rng.pick(&[255usize, 256, 300]),
+    };
+    let mut s = String::new();
+    while s.len() < n {
+        let p = *rng.pick(PALETTE);
+        if s.len() + p.len() <= n {
+            s.push_str(p);
+        } else {
+            s.push('x');
+        }
+    }
+    s
+}
+
+fn gen_cookie(rng: &mut Rng, len: usize) -> Vec<u8> {
+    match rng.below(6) {
+        0 => vec![0u8; len],
+        1 => vec![0xffu8; len],
+        _ => rng.bytes(len),
+    }
+}
+
+fn gen_opt_cookie(rng: &mut Rng) -> Option<Vec<u8>> {
+    if rng.chance(1, 3) {
+        None
+    } else {
+        let n = if rng.chance(1, 2) { *rng.pick(COOKIE_LENS) } else { rng.below(20) as usize };
+        Some(gen_cookie(rng, n))
+    }
+}
+
+/// minimal two's complement octets (X.690 §8.3), written independently of lber
+fn int_octets(v: i64) -> Vec<u8> {
+    let mut b = v.to_be_bytes().to_vec();
+    while b.len() > 1 && ((b[0] == 0 && b[1] & 0x80 == 0) || (b[0] == 0xff && b[1] & 0x80 != 0)) {
+        b.remove(0);
+    }
+    b
+}
+
+fn octets(v: &[u8]) -> StructureTag {
+    prim(0, 4, v.to_vec())
+}
+
+/// BOOLEAN DEFAULT `dflt` with value `b`: omitted, or explicit (TRUE as FF or any non-zero octet)
+fn bool_opt(rng: &mut Rng, dflt: bool, b: bool) -> Vec<StructureTag> {
+    if b == dflt && rng.chance(2, 3) {
+        return vec![];
+    }
+    let x = if !b {
+        0u8
+    } else if rng.chance(2, 3) {
+        0xff
+    } else {
+        rng.range(1, 255) as u8
+    };
+    vec![prim(0, 1, vec![x])]
+}
+
+fn oid_ok(out: &mut Out, what: &str, rc: &RawControl, oid: &str, crit: bool) {
+    out.r(&format!("ctl.oid-crit {} {}", what, oid), rc.ctype == oid && rc.crit == crit,
+          &format!("got oid {} crit {}", rc.ctype, rc.crit));
+}
+
+/// M (+ critical-wrapper M) and O lines of one request control
+fn req_control(out: &mut Out, name: &str, args: &str, rc: &RawControl, crit_rc: Option<&RawControl>, oid: &str, crit: bool, spec_expect: Option<&str>) {
+    let a = if args.is_empty() { String::new() } else { format!(" {}", args) };
+    out.m(&format!("ctl.enc {}{}", name, a), &show_raw(rc));
+    oid_ok(out, name, rc, oid, crit);
+    if let Some(c) = crit_rc {
+        out.m(&format!("ctl.enc critical {}{}", name, a), &show_raw(c));
+        out.r(&format!("ctl.critical-wrapper {}", name), c.crit && c.ctype == rc.ctype && c.val == rc.val, "wrapper changed more than criticality");
+    }
+    if let Some(e) = spec_expect {
+        out.o(&format!("spec.ctl.dec {} {}", name, opt_hex(&rc.val)), e);
+    }
+}
+
+fn parse_outcome<T>(f: impl FnOnce() -> T + std::panic::UnwindSafe, show: impl Fn(&T) -> String) -> String {
+    match guarded(f) {
+        Ok(v) => show(&v),
+        Err(_) => String::from("panic"),
+    }
+}
+
+fn show_paged(p: &PagedResults) -> String {
+    format!("size={} cookie={}", p.size, hex(&p.cookie))
+}
+
+fn show_syncstate(s: &SyncState) -> String {
+    let w = match s.state {
+        EntryState::Present => "present",
+        EntryState::Add => "add",
+        EntryState::Modify => "modify",
+        EntryState::Delete => "delete",
+    };
+    format!("state={} uuid={} cookie={}", w, hex(&s.entry_uuid), opt_hex(&s.cookie))
+}
+
+fn show_syncdone(s: &SyncDone) -> String {
+    format!("cookie={} rd={}", opt_hex(&s.cookie), bit(s.refresh_deletes))
+}
+
+fn canon_set<'a>(it: impl Iterator<Item = &'a Vec<u8>>) -> String {
+    let mut v: Vec<String> = it.map(|u| hex(u)).collect();
+    v.sort();
+    v.dedup();
+    v.join(",")
+}
+
+fn show_syncinfo(s: &SyncInfo) -> String {
+    match s {
+        SyncInfo::NewCookie(c) => format!("newcookie {}", hex(c)),
+        SyncInfo::RefreshDelete { cookie, refresh_done } => format!("refreshdelete cookie={} done={}", opt_hex(cookie), bit(*refresh_done)),
+        SyncInfo::RefreshPresent { cookie, refresh_done } => format!("refreshpresent cookie={} done={}", opt_hex(cookie), bit(*refresh_done)),
+        SyncInfo::SyncIdSet { cookie, refresh_deletes, sync_uuids } => {
+            format!("syncidset cookie={} rd={} uuids=[{}]", opt_hex(cookie), bit(*refresh_deletes), canon_set(sync_uuids.iter()))
+        }
+    }
+}
+
+fn show_endtxn(r: &EndTxnResp) -> String {
+    let mid = match r.msg_id {
+        None => String::from("none"),
+        Some(n) => n.to_string(),
+    };
+    let upds = match &r.upds_ctrls {
+        None => String::from("none"),
+        Some(ps) => format!("[{}]", ps.iter().map(|(i, cs)| format!("{}:{}", i, show_controls(cs))).collect::<Vec<_>>().join(",")),
+    };
+    format!("msg_id={} upds={}", mid, upds)
+}
+
+fn rc_of(val: Option<Vec<u8>>) -> RawControl {
+    RawControl { ctype: String::from("1.1"), crit: false, val }
+}
+
+/// every response parser on one value (`None` = control / exop without a value)
+fn parse_all(out: &mut Out, val: &Option<Vec<u8>>) {
+    let h = opt_hex(val);
+    let v = val.clone();
+    out.m(&format!("ctl.parse paged {}", h), &parse_outcome(move || rc_of(v).parse::<PagedResults>(), show_paged));
+    let v = val.clone();
+    out.m(&format!("ctl.parse syncstate {}", h), &parse_outcome(move || rc_of(v).parse::<SyncState>(), show_syncstate));
+    let v = val.clone();
+    out.m(&format!("ctl.parse syncdone {}", h), &parse_outcome(move || rc_of(v).parse::<SyncDone>(), show_syncdone));
+    let v = val.clone();
+    out.m(&format!("exop.parse whoami {}", h), &parse_outcome(move || Exop { name: None, val: v }.parse::<WhoAmIResp>(), |r| format!("authzid={}", hex(r.authzid.as_bytes()))));
+    let v = val.clone();
+    out.m(&format!("exop.parse starttxn {}", h), &parse_outcome(move || Exop { name: None, val: v }.parse::<StartTxnResp>(), |r| format!("txn_id={}", hex(r.txn_id.as_bytes()))));
+    let v = val.clone();
+    out.m(&format!("exop.parse passmod {}", h), &parse_outcome(move || Exop { name: None, val: v }.parse::<PasswordModifyResp>(), |r| format!("gen_pass={}", hex(r.gen_pass.as_bytes()))));
+    let v = val.clone();
+    out.m(&format!("exop.parse endtxn {}", h), &parse_outcome(move || Exop { name: None, val: v }.parse::<EndTxnResp>(), show_endtxn));
+    read_entry_case(out, val);
+}
+
+/// `ReadEntryResp::parse` = `parse_tag` (modelled here) followed by `SearchEntry::construct` (C15)
+fn read_entry_case(out: &mut Out, val: &Option<Vec<u8>>) {
+    let h = opt_hex(val);
+    let outer = match val {
+        None => String::from("panic"),
+        Some(v) => match guarded(|| parse_tag(v).map(|(_, t)| t).ok()) {
+            Ok(Some(t)) => format!("ok {}", tlv(&t)),
+            _ => String::from("panic"),
+        },
+    };
+    out.m(&format!("ctl.parse readentry {}", h), &outer);
+    let show = |a: &std::collections::HashMap<String, Vec<String>>, b: &std::collections::HashMap<String, Vec<Vec<u8>>>| {
+        let mut x: Vec<String> = a.iter().map(|(k, v)| format!("{}={:?}", k, v)).collect();
+        x.sort();
+        let mut y: Vec<String> = b.iter().map(|(k, v)| format!("{}={:?}", k, v)).collect();
+        y.sort();
+        format!("{:?}|{:?}", x, y)
+    };
+    let v = val.clone();
+    let real = parse_outcome(move || rc_of(v).parse::<ReadEntryResp>(), |r| show(&r.attrs, &r.bin_attrs));
+    let v = val.clone();
+    let composed = parse_outcome(
+        move || {
+            let v = v.expect("value");
+            let t = match parse_tag(&v) {
+                Ok((_, t)) => t,
+                _ => panic!("parse"),
+            };
+            SearchEntry::construct(ResultEntry::new(t))
+        },
+        |se| show(&se.attrs, &se.bin_attrs),
+    );
+    out.r("readentry = construct . parse_tag", real == composed, &format!("{} vs {}", real, composed));
+}
+
+fn syncinfo_msg(with_name: bool, name: &[u8], val: Vec<u8>) -> StructureTag {
+    let mut ks = vec![];
+    if with_name {
+        ks.push(prim(2, 0, name.to_vec()));
+    }
+    ks.push(prim(2, 1, val));
+    cons(1, 25, ks)
+}
+
+fn syncinfo_outcome(t: &StructureTag) -> String {
+    let t = t.clone();
+    parse_outcome(move || parse_syncinfo(ResultEntry::new(t)), show_syncinfo)
+}
+
+/// random tree biased towards the tags the parsers look at
+fn gen_resp_tree(rng: &mut Rng, depth: u32) -> StructureTag {
+    let c = if rng.chance(4, 5) { 0 } else { rng.below(4) as u8 };
+    let id = if rng.chance(5, 6) { *rng.pick(&[0u64, 1, 2, 3, 4, 10, 16, 17]) } else { rng.below(31) };
+    if depth == 0 || rng.chance(1, 2) {
+        let n = match rng.below(10) {
+            0..=1 => 0,
+            2..=6 => rng.range(1, 4) as usize,
+            7..=8 => rng.range(5, 20) as usize,
+            _ => *rng.pick(&[127usize, 128, 300]),
+        };
+        let mut v = rng.bytes(n);
+        if n > 0 && rng.chance(1, 3) {
+            v[0] = *rng.pick(&[0u8, 1, 2, 3, 4, 0x7f, 0x80, 0xff]);
+        }
+        if rng.chance(1, 3) {
+            v = gen_str(rng).into_bytes();
+        }
+        prim(c, id, v)
+    } else {
+        let n = rng.below(5);
+        cons(c, id, (0..n).map(|_| gen_resp_tree(rng, depth - 1)).collect())
+    }
+}
+
+fn gen_oid(rng: &mut Rng) -> String {
+    match rng.below(10) {
+        0..=4 => String::from(*rng.pick(&[RFC_PAGED, RFC_POST_READ, RFC_PRE_READ, RFC_SYNC_DONE, RFC_SYNC_STATE, RFC_MANAGE_DSA_IT, RFC_MATCHED_VALUES,
+            RFC_SYNC_REQUEST, RFC_ASSERTION, RFC_PROXY_AUTH, RFC_TXN_SPEC, RFC_RELAX])),
+        5..=6 => {
+            let n = rng.range(1, 8);
+            (0..n).map(|_| rng.below(400).to_string()).collect::<Vec<_>>().join(".")
+        }
+        7 => {
+            // near misses of table entries
+            let mut s = String::from(*rng.pick(&[RFC_PAGED, RFC_SYNC_DONE, RFC_MANAGE_DSA_IT]));
+            match rng.below(3) {
+                0 => { s.pop(); }
+                1 => s.push('0'),
+                _ => s.insert(0, ' '),
+            }
+            s
+        }
+        _ => gen_str(rng),
+    }
+}
+
+fn gen_raw(rng: &mut Rng) -> RawControl {
+    RawControl { ctype: gen_oid(rng), crit: rng.chance(1, 2), val: gen_opt_cookie(rng) }
+}
+
+fn envelope_real(id: i32, ctrls: Vec<RawControl>) -> Vec<u8> {
+    let mut buf = BytesMut::new();
+    ldap3::verif::verif_encode(id, Tag::StructureTag(cons(1, 3, vec![prim(0, 4, b"dc=x".to_vec())])), Some(ctrls), &mut buf).expect("encode");
+    buf.to_vec()
+}
+
+/// decode a frame with the real decoder: controls list, `none` on a decoding error
+fn envelope_decode(bytes: &[u8]) -> String {
+    let b = bytes.to_vec();
+    match guarded(move || {
+        let mut buf = BytesMut::from(&b[..]);
+        match ldap3::verif::verif_decode(&mut buf) {
+            Ok(Some((_id, (_tag, ctrls)))) => show_controls(&ctrls),
+            Ok(None) => String::from("incomplete"),
+            Err(_) => String::from("none"),
+        }
+    }) {
+        Ok(s) => s,
+        Err(_) => String::from("panic"),
+    }
+}
+
+fn frame_with_controls(rng: &mut Rng, id: i64, controls: &StructureTag, vary: bool) -> Vec<u8> {
+    let msg = cons(0, 16, vec![prim(0, 2, int_octets(id)), cons(1, 5, vec![prim(0, 10, vec![0]), octets(b""), octets(b"")]), controls.clone()]);
+    spec_enc(&msg, rng, vary)
+}
+
+pub fn run(thorough: bool, mut rng: Rng, mut out: Out) {
+    let reps = if thorough { 12 } else { 3 };
+
+    // ================= request controls =================
+    // ---- PagedResults (RFC 2696)
+    let mut sizes: Vec<i32> = SIZES.to_vec();
+    for _ in 0..(if thorough { 200 } else { 20 }) {
+        let bits = rng.range(1, 31);
+        sizes.push((rng.next() as u32 >> (32 - bits)) as i32 & i32::MAX);
+    }
+    for &size in &sizes {
+        for &cl in COOKIE_LENS {
+            for _ in 0..reps {
+                let cookie = gen_cookie(&mut rng, cl);
+                let args = format!("{} {}", size, hex(&cookie));
+                out.case(&format!("paged {}", args), cl > 0 || size > 127);
+                out.stat(&format!("paged.cookie={}", cl));
+                let rc: RawControl = PagedResults { size, cookie: cookie.clone() }.into();
+                let crc: RawControl = PagedResults { size, cookie: cookie.clone() }.critical().into();
+                let expect = format!("size={} cookie={}", size, hex(&cookie));
+                req_control(&mut out, "paged", &args, &rc, Some(&crc), RFC_PAGED, false, Some(&expect));
+                // the same struct is the response control: parse what was emitted
+                let back = parse_outcome(|| rc.parse::<PagedResults>(), show_paged);
+                out.r("paged.roundtrip", back == expect, &format!("{} -> {}", expect, back));
+            }
+        }
+    }
+    // negative sizes are outside `INTEGER (0..maxInt)`: model comparison only, plus what the reader makes of them
+    for size in [-1i32, -2, -128, -129, -32768, -32769, i32::MIN, i32::MIN + 1] {
+        let cookie = gen_cookie(&mut rng, 3);
+        let args = format!("{} {}", size, hex(&cookie));
+        out.case(&format!("paged {}", args), true);
+        out.stat("paged.negative");
+        let rc: RawControl = PagedResults { size, cookie: cookie.clone() }.into();
+        out.m(&format!("ctl.enc paged {}", args), &show_raw(&rc));
+        out.m(&format!("ctl.parse paged {}", opt_hex(&rc.val)), &parse_outcome(|| rc.parse::<PagedResults>(), show_paged));
+    }
+    // ---- SyncRequest (RFC 4533)
+    for mode in [1, 3] {
+        for hint in [false, true] {
+            let mut cookies: Vec<Option<Vec<u8>>> = vec![None];
+            for &cl in COOKIE_LENS {
+                for _ in 0..reps {
+                    cookies.push(Some(gen_cookie(&mut rng, cl)));
+                }
+            }
+            for cookie in cookies {
+                let mk = || SyncRequest {
+                    mode: if mode == 1 { RefreshMode::RefreshOnly } else { RefreshMode::RefreshAndPersist },
+                    cookie: cookie.clone(),
+                    reload_hint: hint,
+                };
+                let args = format!("{} {} {}", mode, opt_hex(&cookie), bit(hint));
+                out.case(&format!("syncreq {}", args), cookie.is_some() || hint);
+                out.stat(&format!("syncreq.cookie={}", cookie.as_ref().map(|c| c.len().to_string()).unwrap_or(String::from("none"))));
+                let rc: RawControl = mk().into();
+                let crc: RawControl = mk().critical().into();
+                let expect = format!("mode={} cookie={} hint={}", mode, opt_hex(&cookie), bit(hint));
+                req_control(&mut out, "syncreq", &args, &rc, Some(&crc), RFC_SYNC_REQUEST, false, Some(&expect));
+            }
+        }
+    }
+    // ---- PreRead / PostRead (RFC 4527)
+    for n in 0..(if thorough { 3000 } else { 300 }) {
+        let k = if n < 4 { n } else { rng.below(6) };
+        let attrs: Vec<String> = (0..k).map(|_| gen_str(&mut rng)).collect();
+        let args = attrs.iter().map(|a| hex(a.as_bytes())).collect::<Vec<_>>().join(" ");
+        let expect = format!("attrs=[{}]", attrs.iter().map(|a| hex(a.as_bytes())).collect::<Vec<_>>().join(","));
+        out.case(&format!("readentry-req {}", args), k > 0);
+        out.stat(&format!("attrsel.len={}", k));
+        let pre = PreRead::new(attrs.clone());
+        req_control(&mut out, "preread", &args, &pre, None, RFC_PRE_READ, false, Some(&expect));
+        let post = PostRead::new(attrs.clone());
+        req_control(&mut out, "postread", &args, &post, None, RFC_POST_READ, false, Some(&expect));
+    }
+    // ---- Assertion (RFC 4528) / MatchedValues (RFC 3876)
+    let mut filters: Vec<String> = ["(cn=a)", "cn=a", "(&(objectClass=person)(|(cn=Al*)(sn>=B)))", "(!(cn=x))", "(cn=*)", "(cn:dn:2.5.13.5:=x)",
+        "(cn~=a)", "(cn<=a)", "(a=\\2a)", "(&)", "(|)", "(cn=a*b*c)", "(:dn:2.4.6.8.10:=x)", "(cn:caseExactMatch:=é)",
+        "", "(", "(cn=a", "((cn=a))", "(cn=a))", "()", "(=a)", "(cn=\\zz)", "(!(cn=a)(cn=b))"]
+        .iter().map(|s| s.to_string()).collect();
+    filters.push(format!("(cn={})", "a".repeat(200)));
+    filters.push(format!("(&{})", "(cn=abcdefghij)".repeat(30)));
+    for _ in 0..(if thorough { 2000 } else { 200 }) {
+        filters.push(gen_filter(&mut rng, 3));
+    }
+    for f in &filters {
+        let parsed = guarded(|| ldap3::parse_filter(f).ok().map(|t| lber::structures::ASNTag::into_structure(t))).unwrap_or(None);
+        let arg = parsed.as_ref().map(tlv).unwrap_or(String::from("none"));
+        out.case(&format!("assertion {}", f), parsed.is_some());
+        out.stat(if parsed.is_some() { "assertion.valid" } else { "assertion.invalid" });
+        let f2 = f.clone();
+        match guarded(move || Assertion::new(f2)) {
+            Ok(rc) => {
+                let f3 = f.clone();
+                let crc: Option<RawControl> = guarded(move || Assertion { filter: f3 }.critical().into()).ok();
+                req_control(&mut out, "assertion", &arg, &rc, crc.as_ref(), RFC_ASSERTION, false, if parsed.is_some() { Some(&arg) } else { None });
+                out.r("assertion.filter-was-valid", parsed.is_some(), f);
+            }
+            Err(_) => {
+                out.m(&format!("ctl.enc assertion {}", arg), "panic");
+                out.r("assertion.panic-only-on-invalid-filter", parsed.is_none(), f);
+            }
+        }
+    }
+    let mut mvs: Vec<String> = ["((cn=a))", "((cn=a)(sn=b*c))", "((cn:caseExactMatch:=x))", "((cn=*))", "((a>=1)(b<=2)(c~=3))",
+        "(cn=a)", "", "((&(cn=a)))", "()", "((cn=a)", "((cn=a)))", "((!(cn=a)))"]
+        .iter().map(|s| s.to_string()).collect();
+    mvs.push(format!("((cn={}))", "v".repeat(150)));
+    for _ in 0..(if thorough { 1000 } else { 100 }) {
+        let k = rng.range(1, 4);
+        mvs.push(format!("({})", (0..k).map(|_| gen_item(&mut rng)).collect::<String>()));
+    }
+    for f in &mvs {
+        let f2 = f.clone();
+        match guarded(move || MatchedValues::new(f2)) {
+            Ok(rc) => {
+                // the filter parser is not public: the tree the model starts from is read back from the emitted value
+                let t = rc.val.as_ref().and_then(|v| parse_tag(v).ok().map(|(_, t)| t));
+                let arg = t.as_ref().map(tlv).unwrap_or(String::from("none"));
+                out.case(&format!("matchedvalues {}", f), true);
+                out.stat("matchedvalues.valid");
+                req_control(&mut out, "matchedvalues", &arg, &rc, None, RFC_MATCHED_VALUES, false, Some(&arg));
+            }
+            Err(_) => {
+                out.case(&format!("matchedvalues {}", f), false);
+                out.stat("matchedvalues.invalid");
+                out.m("ctl.enc matchedvalues none", "panic");
+            }
+        }
+    }
+    // ---- ProxyAuth (RFC 4370), TxnSpec (RFC 5805), ManageDsaIT (RFC 3296), RelaxRules
+    for n in 0..(if thorough { 2000 } else { 300 }) {
+        let s = if n == 0 { String::new() } else if n == 1 { String::from("dn:cn=admin,dc=example,dc=org") } else { gen_str(&mut rng) };
+        let h = hex(s.as_bytes());
+        out.case(&format!("proxyauth/txnspec {}", h), !s.is_empty());
+        let rc: RawControl = ProxyAuth { authzid: s.clone() }.into();
+        req_control(&mut out, "proxyauth", &h, &rc, None, RFC_PROXY_AUTH, true, Some(&format!("octets={}", h)));
+        let rc: RawControl = TxnSpec { txn_id: &s }.into();
+        req_control(&mut out, "txnspec", &h, &rc, None, RFC_TXN_SPEC, true, Some(&format!("octets={}", h)));
+    }
+    {
+        out.case("managedsait", true);
+        let rc: RawControl = ManageDsaIt.into();
+        let crc: RawControl = ManageDsaIt.critical().into();
+        req_control(&mut out, "managedsait", "", &rc, Some(&crc), RFC_MANAGE_DSA_IT, false, Some("absent"));
+        out.case("relaxrules", true);
+        let rc: RawControl = RelaxRules.into();
+        let crc: RawControl = RelaxRules.critical().into();
+        req_control(&mut out, "relaxrules", "", &rc, Some(&crc), RFC_RELAX, false, Some("absent"));
+    }
+
+    // ================= extended requests =================
+    {
+        let e: Exop = WhoAmI.into();
+        out.case("whoami", true);
+        out.m("exop.enc whoami", &show_exop(&e));
+        out.o(&format!("spec.exop.dec whoami {}", opt_hex(&e.val)), "absent");
+        out.r("exop.oid whoami", e.name.as_deref() == Some(RFC_WHOAMI), "");
+        let e: Exop = StartTxn.into();
+        out.case("starttxn", true);
+        out.m("exop.enc starttxn", &show_exop(&e));
+        out.o(&format!("spec.exop.dec starttxn {}", opt_hex(&e.val)), "absent");
+        out.r("exop.oid starttxn", e.name.as_deref() == Some(RFC_TXN_START), "");
+    }
+    for mask in 0..8u32 {
+        for _ in 0..(if thorough { 400 } else { 60 }) {
+            let u = if mask & 1 != 0 { Some(gen_str(&mut rng)) } else { None };
+            let o = if mask & 2 != 0 { Some(gen_str(&mut rng)) } else { None };
+            let n = if mask & 4 != 0 { Some(gen_str(&mut rng)) } else { None };
+            let hx = |x: &Option<String>| opt_hex(&x.as_ref().map(|s| s.as_bytes().to_vec()));
+            let args = format!("{} {} {}", hx(&u), hx(&o), hx(&n));
+            out.case(&format!("passmod {}", args), mask != 0);
+            out.stat(&format!("passmod.mask={}", mask));
+            let e: Exop = PasswordModify { user_id: u.as_deref(), old_pass: o.as_deref(), new_pass: n.as_deref() }.into();
+            out.m(&format!("exop.enc passmod {}", args), &show_exop(&e));
+            out.o(&format!("spec.exop.dec passmod {}", opt_hex(&e.val)), &format!("user={} old={} new={}", hx(&u), hx(&o), hx(&n)));
+            out.r("exop.oid passmod", e.name.as_deref() == Some(RFC_PASSMOD) && (e.val.is_none() == (mask == 0)), "OID, or value not omitted exactly when all fields are absent");
+            if mask == 0 {
+                break;
+            }
+        }
+    }
+    for commit in [true, false] {
+        for n in 0..(if thorough { 1000 } else { 150 }) {
+            let id = if n == 0 { String::new() } else { gen_str(&mut rng) };
+            let args = format!("{} {}", hex(id.as_bytes()), bit(commit));
+            out.case(&format!("endtxn {}", args), !id.is_empty());
+            let e: Exop = EndTxn { txn_id: &id, commit }.into();
+            out.m(&format!("exop.enc endtxn {}", args), &show_exop(&e));
+            out.o(&format!("spec.exop.dec endtxn {}", opt_hex(&e.val)), &format!("id={} commit={}", hex(id.as_bytes()), bit(commit)));
+            out.r("exop.oid endtxn", e.name.as_deref() == Some(RFC_TXN_END), "");
+        }
+    }
+
+    // ================= response values, encoded by the lane (RFC ASN.1, random length forms) =================
+    let mut valid: Vec<StructureTag> = vec![];
+    let mut valid_si: Vec<StructureTag> = vec![];
+    // ---- PagedResults
+    for &size in &sizes {
+        for &cl in COOKIE_LENS {
+            let cookie = gen_cookie(&mut rng, cl);
+            let t = cons(0, 16, vec![prim(0, 2, int_octets(size as i64)), octets(&cookie)]);
+            if cl <= 1 {
+                valid.push(t.clone());
+            }
+            let bs = spec_enc(&t, &mut rng, true);
+            out.case(&format!("paged-resp {}", hex(&bs)), true);
+            let rc = rc_of(Some(bs.clone()));
+            let got = parse_outcome(|| rc.parse::<PagedResults>(), show_paged);
+            out.m(&format!("ctl.parse paged {}", hex(&bs)), &got);
+            out.r("paged.parse = encoded", got == format!("size={} cookie={}", size, hex(&cookie)), &got);
+        }
+    }
+    // ---- SyncState
+    for state in 0..4i64 {
+        for _ in 0..(if thorough { 400 } else { 60 }) {
+            let ul = rng.below(20) as usize;
+            let uuid = if rng.chance(4, 5) { rng.bytes(16) } else { gen_cookie(&mut rng, ul) };
+            let cookie = gen_opt_cookie(&mut rng);
+            let mut ks = vec![prim(0, 10, int_octets(state)), octets(&uuid)];
+            if let Some(c) = &cookie {
+                ks.push(octets(c));
+            }
+            valid.push(cons(0, 16, ks.clone()));
+            let bs = spec_enc(&cons(0, 16, ks), &mut rng, true);
+            out.case(&format!("syncstate {}", hex(&bs)), true);
+            out.stat(&format!("syncstate.state={}", state));
+            let rc = rc_of(Some(bs.clone()));
+            let got = parse_outcome(|| rc.parse::<SyncState>(), show_syncstate);
+            out.m(&format!("ctl.parse syncstate {}", hex(&bs)), &got);
+            let w = ["present", "add", "modify", "delete"][state as usize];
+            out.r("syncstate.parse = encoded", got == format!("state={} uuid={} cookie={}", w, hex(&uuid), opt_hex(&cookie)), &got);
+        }
+    }
+    // ---- SyncDone
+    for rd in [false, true] {
+        for _ in 0..(if thorough { 600 } else { 100 }) {
+            let cookie = gen_opt_cookie(&mut rng);
+            let mut ks = vec![];
+            if let Some(c) = &cookie {
+                ks.push(octets(c));
+            }
+            ks.extend(bool_opt(&mut rng, false, rd));
+            valid.push(cons(0, 16, ks.clone()));
+            let bs = spec_enc(&cons(0, 16, ks), &mut rng, true);
+            out.case(&format!("syncdone {}", hex(&bs)), cookie.is_some() || rd);
+            let rc = rc_of(Some(bs.clone()));
+            let got = parse_outcome(|| rc.parse::<SyncDone>(), show_syncdone);
+            out.m(&format!("ctl.parse syncdone {}", hex(&bs)), &got);
+            out.r("syncdone.parse = encoded", got == format!("cookie={} rd={}", opt_hex(&cookie), bit(rd)), &got);
+        }
+    }
+    // ---- SyncInfo
+    for choice in 0..4u64 {
+        for _ in 0..(if thorough { 600 } else { 100 }) {
+            let cookie = gen_opt_cookie(&mut rng);
+            let flag = rng.chance(1, 2);
+            let k = rng.below(5);
+            let mut uuids: Vec<Vec<u8>> = (0..k).map(|_| if rng.chance(4, 5) { rng.bytes(16) } else { rng.bytes(2) }).collect();
+            if k > 1 && rng.chance(1, 5) {
+                uuids[1] = uuids[0].clone();
+            }
+            let (val_t, expect) = match choice {
+                0 => {
+                    let c = cookie.clone().unwrap_or_default();
+                    (prim(2, 0, c.clone()), format!("newcookie {}", hex(&c)))
+                }
+                1 | 2 => {
+                    let mut ks = vec![];
+                    if let Some(c) = &cookie {
+                        ks.push(octets(c));
+                    }
+                    ks.extend(bool_opt(&mut rng, true, flag));
+                    (cons(2, choice, ks), format!("{} cookie={} done={}", if choice == 1 { "refreshdelete" } else { "refreshpresent" }, opt_hex(&cookie), bit(flag)))
+                }
+                _ => {
+                    let mut ks = vec![];
+                    if let Some(c) = &cookie {
+                        ks.push(octets(c));
+                    }
+                    ks.extend(bool_opt(&mut rng, false, flag));
+                    ks.push(cons(0, 17, uuids.iter().map(|u| octets(u)).collect()));
+                    (cons(2, 3, ks), format!("syncidset cookie={} rd={} uuids=[{}]", opt_hex(&cookie), bit(flag), canon_set(uuids.iter())))
+                }
+            };
+            valid_si.push(val_t.clone());
+            let val = spec_enc(&val_t, &mut rng, true);
+            let msg = syncinfo_msg(rng.chance(4, 5), RFC_SYNC_INFO.as_bytes(), val);
+            let canon = tlv(&msg);
+            out.case(&format!("syncinfo {}", canon), true);
+            out.stat(&format!("syncinfo.choice={}", choice));
+            let got = syncinfo_outcome(&msg);
+            out.m(&format!("ctl.parse syncinfo {}", canon), &got);
+            out.r("syncinfo.parse = encoded", got == expect, &format!("{} vs {}", got, expect));
+        }
+    }
+    // ---- WhoAmI / StartTxn / PasswordModify responses (UTF-8 values)
+    for n in 0..(if thorough { 1500 } else { 250 }) {
+        let s = if n == 0 { String::new() } else { gen_str(&mut rng) };
+        let b = s.as_bytes().to_vec();
+        out.case(&format!("string-resp {}", hex(&b)), !b.is_empty());
+        let v = b.clone();
+        let got = parse_outcome(move || Exop { name: None, val: Some(v) }.parse::<WhoAmIResp>(), |r| format!("authzid={}", hex(r.authzid.as_bytes())));
+        out.m(&format!("exop.parse whoami {}", hex(&b)), &got);
+        out.r("whoami.parse = encoded", got == format!("authzid={}", hex(&b)), &got);
+        let v = b.clone();
+        let got = parse_outcome(move || Exop { name: None, val: Some(v) }.parse::<StartTxnResp>(), |r| format!("txn_id={}", hex(r.txn_id.as_bytes())));
+        out.m(&format!("exop.parse starttxn {}", hex(&b)), &got);
+        out.r("starttxn.parse = encoded", got == format!("txn_id={}", hex(&b)), &got);
+        valid.push(cons(0, 16, vec![prim(2, 0, b.clone())]));
+        let bs = spec_enc(&cons(0, 16, vec![prim(2, 0, b.clone())]), &mut rng, true);
+        let v = bs.clone();
+        let got = parse_outcome(move || Exop { name: None, val: Some(v) }.parse::<PasswordModifyResp>(), |r| format!("gen_pass={}", hex(r.gen_pass.as_bytes())));
+        out.m(&format!("exop.parse passmod {}", hex(&bs)), &got);
+        out.r("passmod.parse = encoded", got == format!("gen_pass={}", hex(&b)), &got);
+    }
+    // ---- Pre/PostRead responses: SearchResultEntry-shaped values (the attribute maps are C15's)
+    for _ in 0..(if thorough { 1500 } else { 250 }) {
+        let k = rng.below(4);
+        let attrs: Vec<StructureTag> = (0..k)
+            .map(|_| {
+                let nv = rng.below(3);
+                cons(0, 16, vec![octets(gen_str(&mut rng).as_bytes()), cons(0, 17, (0..nv).map(|_| { let l = rng.below(6) as usize; octets(&gen_cookie(&mut rng, l)) }).collect())])
+            })
+            .collect();
+        let e = cons(1, 4, vec![octets(gen_str(&mut rng).as_bytes()), cons(0, 16, attrs)]);
+        let bs = spec_enc(&e, &mut rng, true);
+        out.case(&format!("readentry {}", hex(&bs)), k > 0);
+        read_entry_case(&mut out, &Some(bs));
+    }
+    // ---- EndTxn responses in the layout the parser reads (flat msgid, controls pairs) and in the RFC 5805 layout
+    for _ in 0..(if thorough { 1500 } else { 250 }) {
+        let mut ks = vec![];
+        if rng.chance(1, 2) {
+            ks.push(prim(0, 2, int_octets(rng.below(1 << 31) as i64)));
+        }
+        if rng.chance(2, 3) {
+            let np = rng.below(3);
+            let rfc_layout = rng.chance(1, 3);
+            let mut pairs = vec![];
+            for _ in 0..np {
+                let id = prim(0, 2, int_octets(rng.below(1 << 20) as i64));
+                let nc = rng.below(3);
+                let ctrls = cons(0, 16, (0..nc).map(|_| { let r = gen_raw(&mut rng); rfc_control(&mut rng, &r) }).collect());
+                if rfc_layout {
+                    pairs.push(cons(0, 16, vec![id, ctrls]));
+                } else {
+                    pairs.push(id);
+                    pairs.push(ctrls);
+                }
+            }
+            out.stat(if rfc_layout { "endtxn.rfc-layout" } else { "endtxn.flat-layout" });
+            ks.push(cons(0, 16, pairs));
+        }
+        valid.push(cons(0, 16, ks.clone()));
+        let bs = spec_enc(&cons(0, 16, ks), &mut rng, true);
+        out.case(&format!("endtxn-resp {}", hex(&bs)), true);
+        let v = bs.clone();
+        out.m(&format!("exop.parse endtxn {}", hex(&bs)), &parse_outcome(move || Exop { name: None, val: Some(v) }.parse::<EndTxnResp>(), show_endtxn));
+    }
+
+    // ================= malformed / arbitrary response values: panic outcomes are model-compared =================
+    parse_all(&mut out, &None);
+    out.case("value none", true);
+    for corpus in ["-", "30", "3000", "3003020101", "30060201010400", "300602010104", "0500", "30038001ff", "3003800161", "ff", "c328", "30050a01040400",
+                   "30060a01000400", "30030101", "3003010100", "300224800400", "30020100", "3005a003020101", "30053003020101", "3009300730050201013000", "300730050201013000"] {
+        let v = unhex(corpus);
+        out.case(&format!("value {}", corpus), true);
+        parse_all(&mut out, &Some(v));
+    }
+    for n in 0..(if thorough { 12000 } else { 1500 }) {
+        let t = if n % 2 == 0 { cons(0, 16, (0..rng.below(4)).map(|_| gen_resp_tree(&mut rng, 2)).collect()) } else { gen_resp_tree(&mut rng, 3) };
+        let vary = rng.chance(1, 2);
+        let mut bs = spec_enc(&t, &mut rng, vary);
+        if !bs.is_empty() && rng.chance(1, 4) {
+            let i = rng.below(bs.len() as u64) as usize;
+            match rng.below(3) {
+                0 => bs[i] = rng.next() as u8,
+                1 => bs.truncate(i),
+                _ => bs.insert(i, rng.next() as u8),
+            }
+        }
+        if bs.len() > 1500 {
+            continue;
+        }
+        out.case(&format!("value {}", hex(&bs)), bs.len() >= 2);
+        out.stat("malformed-or-arbitrary.values");
+        parse_all(&mut out, &Some(bs));
+    }
+    // near-valid values: one structural mutation of a well-formed response tree
+    for _ in 0..(if thorough { 20000 } else { 2500 }) {
+        let base = rng_pick_tree(&mut rng, &valid).clone();
+        let t = mutate_tree(&mut rng, &base);
+        let bs = spec_enc(&t, &mut rng, false);
+        if bs.len() > 1500 {
+            continue;
+        }
+        out.case(&format!("value {}", hex(&bs)), true);
+        out.stat("near-valid.values");
+        parse_all(&mut out, &Some(bs));
+    }
+    for _ in 0..(if thorough { 10000 } else { 1500 }) {
+        let base = rng_pick_tree(&mut rng, &valid_si).clone();
+        let t = mutate_tree(&mut rng, &base);
+        let val = spec_enc(&t, &mut rng, false);
+        let wn = rng.chance(1, 2);
+        let msg = if rng.chance(1, 8) { let m0 = syncinfo_msg(true, RFC_SYNC_INFO.as_bytes(), val); mutate_tree(&mut rng, &m0) } else { syncinfo_msg(wn, RFC_SYNC_INFO.as_bytes(), val) };
+        let canon = tlv(&msg);
+        if canon.len() > 4000 {
+            continue;
+        }
+        out.case(&format!("syncinfo {}", canon), true);
+        out.stat("syncinfo.near-valid");
+        out.m(&format!("ctl.parse syncinfo {}", canon), &syncinfo_outcome(&msg));
+    }
+    // arbitrary IntermediateResponse trees for parse_syncinfo
+    for n in 0..(if thorough { 8000 } else { 1200 }) {
+        let inner = gen_resp_tree(&mut rng, 2);
+        let mut inner2 = inner.clone();
+        if rng.chance(2, 3) {
+            inner2.class = cls_of(2);
+            inner2.id = rng.below(5);
+        }
+        let val = spec_enc(&inner2, &mut rng, false);
+        let msg = match n % 6 {
+            0 => gen_resp_tree(&mut rng, 2),
+            1 => cons(1, 25, vec![]),
+            2 => cons(rng.below(4) as u8, 25, vec![prim(2, 0, gen_oid(&mut rng).into_bytes()), prim(2, 1, val)]),
+            3 => cons(1, 25, vec![prim(2, 0, RFC_SYNC_INFO.as_bytes().to_vec()), prim(2, 0, RFC_SYNC_INFO.as_bytes().to_vec()), prim(rng.below(4) as u8, 1, val)]),
+            4 => { let l = rng.below(6) as usize; cons(1, 25, vec![prim(2, 1, rng.bytes(l))]) }
+            _ => syncinfo_msg(true, RFC_SYNC_INFO.as_bytes(), val),
+        };
+        let canon = tlv(&msg);
+        out.case(&format!("syncinfo {}", canon), true);
+        out.stat("syncinfo.arbitrary");
+        out.m(&format!("ctl.parse syncinfo {}", canon), &syncinfo_outcome(&msg));
+    }
+
+    // ================= control lists through the real envelope =================
+    for n in 0..(if thorough { 6000 } else { 1500 }) {
+        let k = if n < 3 { n } else { rng.below(5) };
+        let ctrls: Vec<RawControl> = (0..k).map(|_| gen_raw(&mut rng)).collect();
+        let canon = ctrls.iter().map(show_raw).collect::<Vec<_>>().join(";");
+        out.case(&format!("controls [{}]", canon), k > 0);
+        out.stat(&format!("controls.len={}", k));
+        let id = rng.range(1, i32::MAX as u64) as i32;
+        let c2 = ctrls.clone();
+        let frame = match guarded(move || envelope_real(id, c2)) {
+            Ok(f) => f,
+            Err(_) => {
+                out.r("envelope.encode", false, "panic");
+                continue;
+            }
+        };
+        // build_tag: the third element of the emitted message
+        let parsed = parse_tag(&frame).ok().map(|(_, t)| t);
+        let third = parsed.and_then(|t| t.expect_constructed()).and_then(|mut ks| ks.pop());
+        let Some(third) = third else {
+            out.r("envelope.shape", false, "no controls element");
+            continue;
+        };
+        let kids = third.clone().expect_constructed().unwrap_or_default();
+        out.r("envelope.controls-element", third.class == lber::common::TagClass::Context && third.id == 0 && kids.len() == ctrls.len(), &tlv(&third));
+        for (c, kid) in ctrls.iter().zip(kids.iter()) {
+            out.m(&format!("ctl.build {} {} {}", hex(c.ctype.as_bytes()), bit(c.crit), opt_hex(&c.val)), &tlv(kid));
+        }
+        // parse_controls via the real decoder
+        let got = envelope_decode(&frame);
+        out.m(&format!("ctls.parse {}", tlv(&third)), &got);
+        let want = format!("[{}]", ctrls.iter().map(|c| format!("{} {} {} {}", rfc_known(&c.ctype), hex(c.ctype.as_bytes()), bit(c.crit), opt_hex(&c.val))).collect::<Vec<_>>().join(";"));
+        out.r("envelope.controls-survive", got == want, &format!("{} vs {}", got, want));
+        // the same list in any RFC 4511 encoding: absent / explicit criticality, non-minimal lengths
+        let alt = cons(2, 0, ctrls.iter().map(|c| rfc_control(&mut rng, c)).collect());
+        let frame2 = frame_with_controls(&mut rng, id as i64, &alt, true);
+        let got2 = envelope_decode(&frame2);
+        out.m(&format!("ctls.parse {}", tlv(&alt)), &got2);
+        out.r("envelope.all-forms", got2 == want, &format!("{} vs {}", got2, want));
+    }
+    // malformed control lists: decoding error, never a panic
+    for n in 0..(if thorough { 8000 } else { 1200 }) {
+        let k = rng.below(4);
+        let kids: Vec<StructureTag> = (0..k)
+            .map(|_| {
+                if rng.chance(1, 3) {
+                    gen_resp_tree(&mut rng, 2)
+                } else {
+                    let m = rng.below(5);
+                    let mut ks: Vec<StructureTag> = (0..m).map(|_| gen_resp_tree(&mut rng, 1)).collect();
+                    if m > 0 && rng.chance(3, 4) {
+                        ks[0] = prim(if rng.chance(5, 6) { 0 } else { 2 }, 4, if rng.chance(5, 6) { gen_oid(&mut rng).into_bytes() } else { rng.bytes(3) });
+                    }
+                    cons(0, 16, ks)
+                }
+            })
+            .collect();
+        let ctl = cons(2, 0, kids);
+        let frame = frame_with_controls(&mut rng, (n + 1) as i64, &ctl, false);
+        if frame.len() > 3000 {
+            continue;
+        }
+        let got = envelope_decode(&frame);
+        out.case(&format!("controls-tree {}", tlv(&ctl)), k > 0);
+        out.stat(if got == "none" { "controls-tree.rejected" } else { "controls-tree.accepted" });
+        out.m(&format!("ctls.parse {}", tlv(&ctl)), &got);
+        out.r("envelope.no-panic", got != "panic" && got != "incomplete", &got);
+    }
+
+    out.finish("every request control / extended request struct: all optional-field combinations x cookie lengths {0,1,127,128,300} x random contents, sizes {0,1,127,128,255,256,...,2^31-1} and random; filters from a corpus plus a random generator; response values encoded by the lane's RFC encoder with random non-minimal length forms and explicit/omitted DEFAULT elements; arbitrary and mutated trees for the panic outcomes; control lists of 0-4 random controls through verif_encode -> verif_decode and in alternative RFC 4511 encodings; non-trivial = at least one optional field / non-empty cookie / non-empty list; distinct by FNV hash of the canonical input");
+}
+
+fn rng_pick_tree<'a>(rng: &mut Rng, v: &'a [StructureTag]) -> &'a StructureTag {
+    &v[rng.below(v.len() as u64) as usize]
+}
+
+fn count_nodes(t: &StructureTag) -> u64 {
+    match &t.payload {
+        PL::P(_) => 1,
+        PL::C(ks) => 1 + ks.iter().map(count_nodes).sum::<u64>(),
+    }
+}
+
+/// apply `f` to the `n`-th node (pre-order)
+fn at_node(t: &mut StructureTag, n: &mut u64, f: &mut dyn FnMut(&mut StructureTag)) {
+    if *n == 0 {
+        f(t);
+        *n = u64::MAX;
+        return;
+    }
+    if *n == u64::MAX {
+        return;
+    }
+    *n -= 1;
+    if let PL::C(ks) = &mut t.payload {
+        for k in ks.iter_mut() {
+            at_node(k, n, f);
+            if *n == u64::MAX {
+                return;
+            }
+        }
+    }
+}
+
+/// one structural mutation: retag, primitive <-> constructed, empty, drop / duplicate / insert a child
+fn mutate_tree(rng: &mut Rng, t: &StructureTag) -> StructureTag {
+    let mut t = t.clone();
+    let mut n = rng.below(count_nodes(&t));
+    let kind = rng.below(9);
+    let r1 = rng.next();
+    let r2 = rng.next();
+    let extra = gen_resp_tree(rng, 1);
+    at_node(&mut t, &mut n, &mut |x: &mut StructureTag| match kind {
+        0 => x.class = cls_of((r1 % 4) as u8),
+        1 => x.id = [0u64, 1, 2, 3, 4, 5, 10, 16, 17][(r1 % 9) as usize],
+        2 => {
+            x.payload = match &x.payload {
+                PL::P(_) => PL::C(vec![]),
+                PL::C(_) => PL::P(vec![(r1 & 0xff) as u8]),
+            }
+        }
+        3 => {
+            if let PL::P(v) = &mut x.payload {
+                v.clear();
+            } else if let PL::C(ks) = &mut x.payload {
+                ks.clear();
+            }
+        }
+        4 => {
+            if let PL::C(ks) = &mut x.payload {
+                if !ks.is_empty() {
+                    ks.remove((r1 % ks.len() as u64) as usize);
+                }
+            }
+        }
+        5 => {
+            if let PL::C(ks) = &mut x.payload {
+                if !ks.is_empty() {
+                    let k = ks[(r1 % ks.len() as u64) as usize].clone();
+                    ks.insert((r2 % (ks.len() as u64 + 1)) as usize, k);
+                }
+            }
+        }
+        6 => {
+            if let PL::C(ks) = &mut x.payload {
+                ks.insert((r2 % (ks.len() as u64 + 1)) as usize, extra.clone());
+            }
+        }
+        7 => {
+            if let PL::P(v) = &mut x.payload {
+                if !v.is_empty() {
+                    let i = (r1 % v.len() as u64) as usize;
+                    v[i] = (r2 & 0xff) as u8;
+                } else {
+                    v.push((r2 & 0xff) as u8);
+                }
+            }
+        }
+        _ => {
+            if let PL::C(ks) = &mut x.payload {
+                ks.reverse();
+            }
+        }
+    });
+    t
+}
+
+/// RFC 4511 §4.1.11 encoding of a control chosen by the lane: criticality absent or explicit
+fn rfc_control(rng: &mut Rng, c: &RawControl) -> StructureTag {
+    let mut ks = vec![octets(c.ctype.as_bytes())];
+    ks.extend(bool_opt(rng, false, c.crit));
+    if let Some(v) = &c.val {
+        ks.push(octets(v));
+    }
+    cons(0, 16, ks)
+}
+
+fn gen_attr(rng: &mut Rng) -> String {
+    String::from(*rng.pick(&["cn", "sn", "objectClass", "o", "1.2.3", "cn;lang-de", "uid"]))
+}
+
+fn gen_value(rng: &mut Rng) -> String {
+    let n = rng.below(6);
+    (0..n).map(|_| *rng.pick(&["a", "B", "7", " ", "é", "\\2a", "\\28", "\\5c", ",", "="])).collect()
+}
+
+fn gen_item(rng: &mut Rng) -> String {
+    match rng.below(8) {
+        0 => format!("({}=*)", gen_attr(rng)),
+        1 => format!("({}={}*{})", gen_attr(rng), gen_value(rng), gen_value(rng)),
+        2 => format!("({}>={})", gen_attr(rng), gen_value(rng)),
+        3 => format!("({}<={})", gen_attr(rng), gen_value(rng)),
+        4 => format!("({}~={})", gen_attr(rng), gen_value(rng)),
+        5 => format!("({}:caseIgnoreMatch:={})", gen_attr(rng), gen_value(rng)),
+        6 => format!("({}=*{}*{}*)", gen_attr(rng), gen_value(rng), gen_value(rng)),
+        _ => format!("({}={})", gen_attr(rng), gen_value(rng)),
+    }
+}
+
+fn gen_filter(rng: &mut Rng, depth: u32) -> String {
+    if depth == 0 || rng.chance(1, 2) {
+        return gen_item(rng);
+    }
+    match rng.below(4) {
+        0 => format!("(!{})", gen_filter(rng, depth - 1)),
+        1 => format!("(&{})", (0..rng.below(4)).map(|_| gen_filter(rng, depth - 1)).collect::<String>()),
+        2 => format!("(|{})", (0..rng.below(4)).map(|_| gen_filter(rng, depth - 1)).collect::<String>()),
+        _ => {
+            // sometimes broken
+            let mut s = gen_filter(rng, depth - 1);
+            if rng.chance(1, 3) {
+                s.pop();
+            }
+            s
+        }
+    }
 }
